@@ -217,6 +217,21 @@ func verifyFunction(w *World, fn *ssa.Function) *FuncResult {
 		fr.GenMs = ms(time.Since(t0))
 		return fr
 	}
+	if spec != nil && spec.Options["dead-loops"] != "" {
+		// loops the contract's scope excludes (their vacuity check is expected to be unsat)
+		dead := map[string]bool{}
+		for _, n := range splitList(spec.Options["dead-loops"]) {
+			dead["vacuity:loop"+n] = true
+		}
+		var keep []*Obligation
+		for _, o := range g.obls {
+			if o.Vacuity && dead[o.Clause[strings.LastIndex(o.Clause, ":: ")+3:]] {
+				continue
+			}
+			keep = append(keep, o)
+		}
+		g.obls = keep
+	}
 	fr.Obligations = g.obls
 	fr.Abstractions = dedupAbs(g.abstractions)
 	fr.Trusted = sortedKeys(g.trustedUsed)
@@ -236,6 +251,13 @@ func verifyFunction(w *World, fn *ssa.Function) *FuncResult {
 		for _, cs := range spec.Callees {
 			if g.calleeUse[cs] == 0 {
 				fr.UnusedCallee = append(fr.UnusedCallee, cs.Name)
+			}
+		}
+		for anchor, cl := range spec.SetAts {
+			for _, c := range cl {
+				if g.setAtUse[c] == 0 {
+					fr.Error = "contract-drift: setat anchor not found in the function: " + anchor
+				}
 			}
 		}
 		for anchor, cl := range spec.Asserts {
